@@ -330,9 +330,8 @@ def run(chk):
             elif meta['s'] == 'd':
                 if resp_bulk_values(reps[0]) != [hx(meta['raw'])]: bad = 'raw value not returned with compression disabled'
             else:
-                want = [hx(meta['dec'])] if meta['dec'] is not None else [None]
-                if resp_bulk_values(reps[0]) != want:
-                    bad = 'GET of a raw stored value: expected %s (what zstd::decode_all gives), got %s' % (want, resp_bulk_values(reps[0]))
+                # what a value that did not go through the compressor reads as is not part of the property text:
+                # compared with the model only (C20_raw_value_read), a difference is a correspondence disagreement
                 nontrivial = True
         elif kind == 'cc':
             t = o.split()
